@@ -1,5 +1,9 @@
 import BiotiteModel.Proofs.C10
 import BiotiteModel.Proofs.C10Minimizer
+import BiotiteModel.Proofs.C10Pickle
+import BiotiteModel.Proofs.C10Ctor
+import BiotiteModel.Proofs.C10Kmers
+import BiotiteModel.Proofs.C10Syncmer
 import BiotiteModel.Gen.C10
 /-!
 # C10 — property theorems (k-mer index tables and selectors)
@@ -117,6 +121,19 @@ theorem C10_match_selection (a : KAlph) (bucketed : Bool) (nb : Nat) (items : Li
   simp only []
   rw [lookup_canon a bucketed nb items q hbk (fun hb => hd hb q (List.of_mem_zip hz).2)]
 
+/-- `KmerTable.count()` (no argument): one number per k-mer code = number of stored entries. -/
+theorem C10_count_all (a : KAlph) (nb : Nat) (items : List Entry) :
+    countAll (canonTable a false nb items)
+      = (List.range nb).map fun b => (items.filter (fun e => e.kmer == b)).length :=
+  countAll_canon a nb items
+
+/-- iteration / `get_kmers()`: exactly the k-mer codes that have at least one stored entry
+(membership; the ascending order of the result is exercised by the correspondence only). -/
+theorem C10_get_kmers (a : KAlph) (bucketed : Bool) (nb : Nat) (items : List Entry) (q : Nat)
+    (hbk : bucketed = true → 0 < nb) (hd : bucketed = false → ∀ e ∈ items, e.kmer < nb) :
+    q ∈ getKmers (canonTable a bucketed nb items) ↔ ∃ e ∈ items, e.kmer = q :=
+  mem_getKmers_canon a bucketed nb items q hbk hd
+
 /-- `table[kmer]` for the direct table, and for the bucketed table **as long as all k-mer codes are
 below 2³²** (partial: the bucketed `__getitem__` compares only the low 32-bit word). -/
 theorem C10_getitem_partial (a : KAlph) (bucketed : Bool) (nb : Nat) (items : List Entry) (q : Nat)
@@ -160,6 +177,83 @@ concatenated item lists, without ever exceeding the counted capacity. -/
 theorem C10_merge (h : Nat → Nat) (nb : Nat) (iss : List (List Entry)) :
     mergeSlots nb (iss.map (canon h nb)) = .ok (canon h nb iss.flatten) :=
   mergeSlots_canon h nb iss
+
+/-! ## constructors -/
+
+/-- what one reference contributes to a table: exactly the unmasked `(kmer, ref, position)` triples -/
+theorem C10_items_exact (ref : Nat) (kmers : List Nat) (mask : List Bool) (e : Entry) :
+    e ∈ itemsOf ref kmers mask ↔ e.ref = ref ∧ kmers[e.pos]? = some e.kmer ∧ mask[e.pos]? = some true :=
+  mem_itemsOf ref kmers mask e
+
+/-- `from_kmers`: valid input (codes in range, masks as long as their k-mer arrays) is never rejected,
+never reaches `UB`, and yields the canonical table of the unmasked k-mers — direct and any
+`n_buckets ≥ 1`. -/
+theorem C10_fromKmers_exact (a : KAlph) (nBuckets : Option Nat)
+    (refs : List (Nat × List Nat × Option (List Bool)))
+    (hsize : 0 < a.size) (hnb : ∀ n, nBuckets = some n → 0 < n)
+    (hq : ∀ r ∈ refs, ∀ q ∈ r.2.1, q < a.size)
+    (hm : ∀ r ∈ refs, ∀ m, r.2.2 = some m → m.length = r.2.1.length) :
+    fromKmers a nBuckets refs = .ok (canonTable a nBuckets.isSome (slotCount a nBuckets)
+      (refs.flatMap fun (r, ks, m) => itemsOf r ks (m.getD (List.replicate ks.length true)))) :=
+  fromKmers_eq a nBuckets refs hsize hnb hq hm
+
+/-- every alphabet `KmerAlphabet.__init__` accepts (k ≥ 2, spacing sorted, distinct, of length k) is
+well formed: the hypotheses of `C10_create_kmers` / `C10_fromSequences_exact` hold for it. -/
+theorem C10_mkAlph_wf (n k : Nat) (spacing : Option (List Nat)) (a : KAlph) (h : mkAlph n k spacing = .ok a) :
+    a.WF ∧ a.n = n ∧ a.k = k :=
+  mkAlph_wf n k spacing a h
+
+/-- `create_kmers`: the rolling update (contiguous) resp. the per-position loop (spaced) yields, for
+every start position, the direct `fuse` of the window's symbol codes; all codes are below `n^k`. -/
+theorem C10_create_kmers (a : KAlph) (seq : List Nat) (hwf : a.WF) (hlen : a.span ≤ seq.length)
+    (hn : ∀ c ∈ seq, c < a.n) :
+    createKmers a seq = .ok (kmersSpec a seq) ∧ ∀ q ∈ kmersSpec a seq, q < a.size :=
+  ⟨createKmers_eq a seq hwf hlen hn, kmersSpec_lt a seq hwf hlen hn⟩
+
+/-- `from_sequences`: for sequences at least one k-mer long over the alphabet, whenever mask
+preparation succeeds (always without masks and for contiguous k-mers, `C10_prepareMask_ok`) the result
+is the canonical table of the unmasked `fuse`d windows. -/
+theorem C10_fromSequences_exact (a : KAlph) (nBuckets : Option Nat)
+    (refs : List (Nat × List Nat × Option (List Bool))) (mk : Nat × List Nat × Option (List Bool) → List Bool)
+    (hwf : a.WF) (hsize : 0 < a.size) (hnb : ∀ n, nBuckets = some n → 0 < n)
+    (hlen : ∀ r ∈ refs, a.span ≤ r.2.1.length) (hn : ∀ r ∈ refs, ∀ c ∈ r.2.1, c < a.n)
+    (hmask : ∀ r ∈ refs, prepareMask a r.2.2 r.2.1.length = .ok (mk r)) :
+    fromSequences a nBuckets refs = .ok (canonTable a nBuckets.isSome (slotCount a nBuckets)
+      (refs.flatMap fun r => itemsOf r.1 (kmersSpec a r.2.1) (mk r))) :=
+  fromSequences_eq a nBuckets refs mk hwf hsize hnb hlen hn hmask
+
+theorem C10_prepareMask_ok (a : KAlph) (mask : Option (List Bool)) (len : Nat)
+    (h : ∀ m, mask = some m → m.length = len ∧ a.spacing = none) :
+    ∃ l, prepareMask a mask len = .ok l :=
+  prepareMask_ok a mask len h
+
+/-- `from_positions`: a dictionary with valid, distinct keys yields the canonical direct table of
+exactly the listed `(kmer, ref, position)` triples. -/
+theorem C10_fromPositions_exact (a : KAlph) (dict : List (Nat × List (Nat × Nat)))
+    (hnd : (dict.map (·.1)).Nodup) (hlt : ∀ x ∈ dict, x.1 < a.size) :
+    fromPositions a dict = .ok (canonTable a false a.size (dictItems dict)) :=
+  fromPositions_eq a dict hnd hlt
+
+/-- `match_table` = the join over equal k-mers: `(r₂, p₂, r₁, p₁)` is reported iff the other table
+stores some k-mer at `(r₂, p₂)` that this table stores at `(r₁, p₁)`. -/
+theorem C10_match_table (a : KAlph) (bucketed : Bool) (nb : Nat) (itemsT itemsO : List Entry)
+    (hbk : bucketed = true → 0 < nb)
+    (hd : bucketed = false → ∀ e, (e ∈ itemsT ∨ e ∈ itemsO) → e.kmer < nb) (r2 p2 r1 p1 : Nat) :
+    ∃ l, matchTable (canonTable a bucketed nb itemsT) (canonTable a bucketed nb itemsO) = .ok l ∧
+      ((r2, p2, r1, p1) ∈ l ↔ ∃ q, (⟨q, r2, p2⟩ : Entry) ∈ itemsO ∧ (⟨q, r1, p1⟩ : Entry) ∈ itemsT) :=
+  matchTable_canon a bucketed nb itemsT itemsO hbk hd r2 p2 r1 p1
+
+/-! ## pickling -/
+
+/-- **Pickle round trip** on the model's array layout (concatenated 32-bit words + per-slot lengths):
+every table whose blocks are exactly full (and, for the direct variant, whose slot `j` holds k-mer `j`)
+is restored unchanged — in particular every table a constructor or a merge produces. -/
+theorem C10_pickle (t : Table) (h : t.Full) : pickleRoundTrip t = t :=
+  pickleRoundTrip_eq t h
+
+theorem C10_pickle_constructed (a : KAlph) (bucketed : Bool) (nb : Nat) (items : List Entry) :
+    pickleRoundTrip (canonTable a bucketed nb items) = canonTable a bucketed nb items :=
+  pickleRoundTrip_eq _ (canonTable_full a bucketed nb items)
 
 /-! ## masks -/
 
@@ -220,6 +314,19 @@ theorem C10_minimizer_select (w : Nat) (hw : 2 ≤ w) (p : Perm) (kmers : List N
       minimizerSelect w p kmers = .ok ((dedupConsecutive ps).map fun i => (i, kmers[i]?.getD 0)) ∧
       ∀ i ∈ dedupConsecutive ps, kmers[i]? = some (kmers[i]?.getD 0) :=
   minimizerSelect_spec w hw p kmers ord happly hlen hmax
+
+/-- `SyncmerSelector.select`: position `i` with k-mer `q` is selected iff the leftmost minimal
+(permuted) s-mer inside the k-mer at `i` sits at one of the allowed (normalised) offsets.  Built on
+`C10_minimizer`; keys must be below `INT64_MAX`. -/
+theorem C10_syncmer_select (n k s : Nat) (hs : 2 ≤ s) (hsk : s < k) (p : Perm) (offsets : List Int)
+    (offs : List Nat) (hoffs : syncOffsets (k - s + 1) offsets = .ok offs)
+    (seq : List Nat) (hlen : k ≤ seq.length) (hn : ∀ c ∈ seq, c < n)
+    (ord : List Int) (happly : p.apply (kmersSpec ⟨n, s, none⟩ seq) = .ok ord)
+    (hmax : ∀ v ∈ ord, v < int64Max) :
+    ∃ sel, syncmerSelect n k s p offsets seq = .ok sel ∧
+      ∀ i q, (i, q) ∈ sel ↔ (kmersSpec ⟨n, k, none⟩ seq)[i]? = some q ∧
+        ∃ m, leftmostArgmin ord i (k - s + 1) = some m ∧ ∃ o ∈ offs, (o : Int) = (m : Int) - (i : Int) :=
+  syncmerSelect_spec n k s hs hsk p offsets offs hoffs seq hlen hn ord happly hmax
 
 /-- Syncmer filter: index `i` is selected iff the relative position of its minimum s-mer is one of
 the (normalised) offsets. -/
@@ -297,5 +404,25 @@ example : filterSyncmer [0, 2] [0, 1, 2, 0] = [0, 2, 3] := by decide
 example : mincodeSelect ⟨2, 2, none⟩ 2 .ident [0, 1, 2, 3] = .ok [(0, 0), (1, 1)] := by decide
 example : pickleRoundTrip (canonTable ⟨2, 2, none⟩ true 2 [⟨1, 0, 0⟩, ⟨2, 0, 1⟩, ⟨3, 5, 4⟩])
     = canonTable ⟨2, 2, none⟩ true 2 [⟨1, 0, 0⟩, ⟨2, 0, 1⟩, ⟨3, 5, 4⟩] := by decide
+
+example : fromKmers ⟨2, 2, none⟩ (some 3) [(7, [1, 2, 1], some [true, false, true])]
+    = .ok (canonTable ⟨2, 2, none⟩ true 3 [⟨1, 7, 0⟩, ⟨1, 7, 2⟩]) := by decide
+example : (⟨4, 3, some [0, 1, 3]⟩ : KAlph).WF := ⟨by decide, fun sp h => by cases h; decide⟩
+example : createKmers ⟨4, 3, none⟩ [0, 1, 2, 3] = .ok [6, 27] ∧ kmersSpec ⟨4, 3, none⟩ [0, 1, 2, 3] = [6, 27] := by decide
+example : createKmers ⟨4, 3, some [0, 1, 3]⟩ [0, 1, 2, 3, 0] = .ok [7, 24] ∧
+    kmersSpec ⟨4, 3, some [0, 1, 3]⟩ [0, 1, 2, 3, 0] = [7, 24] := by decide
+example : fromSequences ⟨2, 2, none⟩ none [(0, [0, 1, 1], some [false, false, true]), (1, [1, 1], none)]
+    = .ok (canonTable ⟨2, 2, none⟩ false 4 [⟨1, 0, 0⟩, ⟨3, 1, 0⟩]) := by decide
+example : fromPositions ⟨2, 2, none⟩ [(2, [(0, 5), (1, 6)]), (0, []), (3, [(4, 4)])]
+    = .ok (canonTable ⟨2, 2, none⟩ false 4 [⟨2, 0, 5⟩, ⟨2, 1, 6⟩, ⟨3, 4, 4⟩]) := by decide
+example : matchTable (canonTable ⟨2, 2, none⟩ true 2 [⟨1, 0, 0⟩, ⟨3, 0, 1⟩]) (canonTable ⟨2, 2, none⟩ true 2 [⟨3, 9, 4⟩])
+    = .ok [(9, 4, 0, 1)] := by decide
+example : pickleRoundTrip (canonTable ⟨2, 2, none⟩ false 4 [⟨1, 0, 0⟩, ⟨2, 0, 1⟩, ⟨1, 5, 4⟩])
+    = canonTable ⟨2, 2, none⟩ false 4 [⟨1, 0, 0⟩, ⟨2, 0, 1⟩, ⟨1, 5, 4⟩] := by decide
+
+example : syncmerSelect 3 3 2 .ident [0] [0, 1, 2, 0, 1, 2, 2, 1, 0] = .ok [(0, 5), (1, 15), (3, 5), (4, 17)] := by decide
+example : mkAlph 4 3 (some [3, 0, 1]) = .ok ⟨4, 3, some [0, 1, 3]⟩ := by decide
+example : getKmers (canonTable ⟨2, 2, none⟩ true 2 [⟨3, 0, 0⟩, ⟨1, 0, 1⟩, ⟨3, 1, 0⟩]) = [1, 3] := by decide
+example : countAll (canonTable ⟨2, 2, none⟩ false 4 [⟨3, 0, 0⟩, ⟨1, 0, 1⟩, ⟨3, 1, 0⟩]) = [0, 1, 0, 2] := by decide
 
 end BiotiteModel.C10
